@@ -120,6 +120,30 @@ const FORMATTERS: [&str; 34] = [
     "{T}", "{thread}", "{I}", "{thread_id}", "{X(k)}", "{mdc(k)(dflt)}", "{({l}):>7}", "{bogus}",
 ];
 
+
+/// worker: nesting depth.  Each depth runs on a thread with a 2 MiB stack (the default of spawned threads);
+/// a stack overflow kills the process, so the depth being tried is announced on stderr first.
+pub fn child_deep() -> i32 {
+    for depth in [16usize, 64, 256, 1000, 3000, 10_000, 30_000, 100_000] {
+        for (shape, pat) in [
+            ("unclosed", "{(".repeat(depth)),
+            ("well-formed", format!("{}{{m}}{}", "{(".repeat(depth), ")}".repeat(depth))),
+            ("highlight", format!("{}x{}", "{h(".repeat(depth), ")}".repeat(depth))),
+        ] {
+            eprintln!("T {} {}", depth, shape);
+            let r = std::thread::Builder::new().stack_size(2 << 20).spawn(move || try_pattern(&pat, true)).unwrap().join();
+            match r {
+                Ok(Outcome::PanicNew(m)) | Ok(Outcome::PanicEncode(m)) => println!("{}", json!({"kind": "violation", "sig": format!("deep-nesting:panic:{}", panic_site(&m)), "detail": format!("{} groups nested {} deep: {}", shape, depth, m), "case": {"depth": depth, "shape": shape}})),
+                Ok(Outcome::Ok(out)) if shape == "well-formed" && out != "m\u{e9}s\u{20ac}g".as_bytes() => println!("{}", json!({"kind": "violation", "sig": "deep-nesting:wrong-output", "detail": format!("depth {}: {:?}", depth, String::from_utf8_lossy(&out)), "case": {"depth": depth, "shape": shape}})),
+                Ok(_) => {}
+                Err(_) => println!("{}", json!({"kind": "violation", "sig": "deep-nesting:panic-escaped", "detail": format!("{} depth {}", shape, depth), "case": {"depth": depth, "shape": shape}})),
+            }
+        }
+    }
+    println!("{}", json!({"kind": "stat", "max_depth": 100_000}));
+    0
+}
+
 /// child: every formatter is encoded as the very first thing a fresh thread does (lazily built
 /// thread-locals: first use) and once more on the same thread (later use); outputs must agree.
 /// Encoding from a thread-local *destructor* during thread teardown is deliberately not probed: it is
@@ -223,7 +247,8 @@ fn definite_errors() -> Vec<(String, &'static str)> {
     for n in ["d", "date"] {
         v.push((format!("{{{}(%Y)(utc)(x)}}", n), "arity"));
         // not a zone under any spelling leniency (case, white space and aliases such as GMT are the library's choice)
-        for z in ["mars", "utcx", "", "{m}", "12:99", "no/such_zone"] {
+        // (the last four start like a zone and go on: the whole argument is the zone name)
+        for z in ["mars", "utcx", "", "{m}", "12:99", "no/such_zone", "utc\\(junk", "utc{m}", "local}}x", "utc\\q"] {
             v.push((format!("{{{}(%Y)({})}}", n, z), "timezone"));
         }
     }
@@ -250,7 +275,7 @@ pub fn run(ctx: &Ctx) -> Report {
         "E-ENUM: (i) every string over the 19-symbol syntax alphabet up to the length bound, alone and after the prefix 'x{l}', constructed and encoded \
          under catch_unwind in worker processes; (ii) every single edit (thorough: double edits of the shorter ones) of 12 documented patterns; \
          (iii) definite-error classes must show an {ERROR marker or return Err, with the preceding text rendered; (iv) every single-directive strftime \
-         format; (v) widths of 1..25 digits; (vi) every formatter as the first and second encode of a fresh thread. Non-trivial = string containing at least one syntax character",
+         format; (v) widths of 1..25 digits; (vi) every formatter as the first and second encode of a fresh thread; (vii) groups nested 16 ... 100 000 deep (unclosed, well-formed, highlight) on a 2 MiB stack. Non-trivial = string containing at least one syntax character",
     );
     let maxlen = ctx.tier.pick(6usize, 7usize);
     let nparts = 16u64;
@@ -366,7 +391,7 @@ pub fn run(ctx: &Ctx) -> Report {
     // (iv) strftime directives
     let mut n4 = 0;
     for c in printable() {
-        for (fmt, tail) in [(format!("%{}", c), ""), (format!("%-{}", c), ""), (format!("%{}%", c), ""), (format!("x%{}", c), ""), (format!("%.{}", c), ""), (format!("%:{}", c), ""), (format!("%3{}", c), "")] {
+        for (fmt, tail) in [(format!("%{}", c), ""), (format!("%-{}", c), ""), (format!("%{}%", c), ""), (format!("x%{}", c), ""), (format!("%.{}", c), ""), (format!("%:{}", c), ""), (format!("%3{}", c), ""), (format!("%#{}", c), ""), (format!("%_{}", c), ""), (format!("%0{}", c), "")] {
             let _ = tail;
             if fmt.contains(['(', ')', '{', '}', '\\']) {
                 continue;
@@ -455,6 +480,29 @@ pub fn run(ctx: &Ctx) -> Report {
                     json!({"pattern": pat, "thread_exit": order}),
                 );
             }
+        }
+    }
+    // (vii) nesting depth up to 100 000 on a 2 MiB stack
+    {
+        let o = run_child(&ctx.exe, "c11deep", &[], &[], ctx.cap);
+        let lines = o.json_lines();
+        for v in &lines {
+            if v["kind"] == "violation" {
+                rep.violation(v["sig"].as_str().unwrap_or("?"), v["detail"].as_str().unwrap_or(""), v["case"].clone());
+            }
+        }
+        rep.add("evaluations", 24);
+        if !lines.iter().any(|v| v["kind"] == "stat") {
+            let last = String::from_utf8_lossy(&o.stderr).lines().filter_map(|l| l.strip_prefix("T ").map(|s| s.to_owned())).last().unwrap_or_default();
+            let mut it = last.splitn(2, ' ');
+            let depth: u64 = it.next().and_then(|d| d.parse().ok()).unwrap_or(0);
+            let shape = it.next().unwrap_or("").to_owned();
+            rep.violation(
+                "deep-nesting:stack-overflow",
+                format!("the process died (status {:?}) compiling or encoding {} groups nested {} deep on a 2 MiB stack: {}", o.status, shape, depth, String::from_utf8_lossy(&o.stderr).lines().last().unwrap_or("")),
+                json!({"depth": depth, "shape": shape}),
+            );
+            rep.set("deepest_nesting_survived_below", depth);
         }
     }
     rep.sample(json!({"pattern": nth_string(ctx.seed.wrapping_mul(7919) % 19u64.pow(5), 5)}));
